@@ -611,6 +611,8 @@ static const char* reb_string_for_particle_error(int err){
         return "Can only pass one longitude/anomaly in the set (f, M, E, l, theta, T).";
     if (err==15)
         return "Semi-major axis (or orbital period) cannot be zero.";
+    if (err==16)
+        return "NaN passed as an argument.";
     return "An unknown error occured during reb_simulation_add_fmt().";
 
 }
@@ -683,6 +685,8 @@ static struct reb_particle reb_particle_from_fmt_errV(struct reb_simulation* r, 
     double iy = nan("");
     struct reb_particle primary = {0};
     int primary_given = 0;
+    int nan_given = 0; // NaN marks arguments that were not passed; a NaN that was passed explicitly is an error
+#define REB_FMT_GET_DOUBLE(var) do{ var = va_arg(args, double); if (isnan(var)) nan_given = 1; }while(0)
 
     char *sep = " \t\n,;";
 
@@ -692,55 +696,55 @@ static struct reb_particle reb_particle_from_fmt_errV(struct reb_simulation* r, 
 
     while ((token = strtok_r(rest, sep, &rest))){
         if (0==strcmp(token,"m"))
-            m = va_arg(args, double);
+            REB_FMT_GET_DOUBLE(m);
         if (0==strcmp(token,"r"))
-            radius = va_arg(args, double);
+            REB_FMT_GET_DOUBLE(radius);
         if (0==strcmp(token,"x"))
-            x = va_arg(args, double);
+            REB_FMT_GET_DOUBLE(x);
         if (0==strcmp(token,"y"))
-            y = va_arg(args, double);
+            REB_FMT_GET_DOUBLE(y);
         if (0==strcmp(token,"z"))
-            z = va_arg(args, double);
+            REB_FMT_GET_DOUBLE(z);
         if (0==strcmp(token,"vx"))
-            vx = va_arg(args, double);
+            REB_FMT_GET_DOUBLE(vx);
         if (0==strcmp(token,"vy"))
-            vy = va_arg(args, double);
+            REB_FMT_GET_DOUBLE(vy);
         if (0==strcmp(token,"vz"))
-            vz = va_arg(args, double);
+            REB_FMT_GET_DOUBLE(vz);
         if (0==strcmp(token,"a"))
-            a = va_arg(args, double);
+            REB_FMT_GET_DOUBLE(a);
         if (0==strcmp(token,"P"))
-            P = va_arg(args, double);
+            REB_FMT_GET_DOUBLE(P);
         if (0==strcmp(token,"e"))
-            e = va_arg(args, double);
+            REB_FMT_GET_DOUBLE(e);
         if (0==strcmp(token,"inc"))
-            inc = va_arg(args, double);
+            REB_FMT_GET_DOUBLE(inc);
         if (0==strcmp(token,"Omega"))
-            Omega = va_arg(args, double);
+            REB_FMT_GET_DOUBLE(Omega);
         if (0==strcmp(token,"omega"))
-            omega = va_arg(args, double);
+            REB_FMT_GET_DOUBLE(omega);
         if (0==strcmp(token,"pomega"))
-            pomega = va_arg(args, double);
+            REB_FMT_GET_DOUBLE(pomega);
         if (0==strcmp(token,"f"))
-            f = va_arg(args, double);
+            REB_FMT_GET_DOUBLE(f);
         if (0==strcmp(token,"M"))
-            M = va_arg(args, double);
+            REB_FMT_GET_DOUBLE(M);
         if (0==strcmp(token,"E"))
-            E = va_arg(args, double);
+            REB_FMT_GET_DOUBLE(E);
         if (0==strcmp(token,"l"))
-            l = va_arg(args, double);
+            REB_FMT_GET_DOUBLE(l);
         if (0==strcmp(token,"theta"))
-            theta = va_arg(args, double);
+            REB_FMT_GET_DOUBLE(theta);
         if (0==strcmp(token,"T"))
-            T = va_arg(args, double);
+            REB_FMT_GET_DOUBLE(T);
         if (0==strcmp(token,"h"))
-            h = va_arg(args, double);
+            REB_FMT_GET_DOUBLE(h);
         if (0==strcmp(token,"k"))
-            k = va_arg(args, double);
+            REB_FMT_GET_DOUBLE(k);
         if (0==strcmp(token,"ix"))
-            ix = va_arg(args, double);
+            REB_FMT_GET_DOUBLE(ix);
         if (0==strcmp(token,"iy"))
-            iy = va_arg(args, double);
+            REB_FMT_GET_DOUBLE(iy);
         if (0==strcmp(token,"primary")){
             primary = va_arg(args, struct reb_particle);
             primary_given = 1;
@@ -750,6 +754,11 @@ static struct reb_particle reb_particle_from_fmt_errV(struct reb_simulation* r, 
         }
     }
     free(fmt_c);
+#undef REB_FMT_GET_DOUBLE
+    if (nan_given){
+        *err = 16; // NaN passed explicitly
+        return reb_particle_nan();
+    }
 
     int Ncart = 0;
     if (!isnan(x)) Ncart++;
